@@ -1,0 +1,26 @@
+//go:build verif
+
+package vgirpc
+
+// Verification hooks (build tag "verif") for the application-protocol-version
+// gate. Add-only; nothing here is compiled into normal builds.
+
+// VerifC10ParseSemver runs the canonical-semver parser.
+func VerifC10ParseSemver(value string) (major, minor, patch int, err error) {
+	return parseSemver(value)
+}
+
+// VerifC10Declared reports whether a protocol version is declared and the
+// parsed components the gate compares against.
+func (s *Server) VerifC10Declared() (set bool, text string, parts [3]int) {
+	return s.protocolVersionSet, s.protocolVersion, s.protocolVersionParts
+}
+
+// VerifC10Check runs the dispatch-boundary version check exactly as the three
+// call sites do (skipped when no version is declared). nil = admitted.
+func (s *Server) VerifC10Check(clientVersion string, present bool) *ProtocolVersionError {
+	if !s.protocolVersionSet {
+		return nil
+	}
+	return s.checkProtocolVersion(clientVersion, present)
+}
